@@ -575,6 +575,9 @@ void Plan::ScheduleInitialEdges() {
     if (want == kWantToStart && edge->AllInputsReady()) {
       Pool* pool = edge->pool();
       if (pool->ShouldDelayEdge()) {
+        // Mark the edge as scheduled, as ScheduleWork() does; otherwise a
+        // later EdgeMaybeReady() (e.g. after a dyndep load) schedules it again.
+        it->second = kWantToFinish;
         pool->DelayEdge(edge);
         pools.insert(pool);
       } else {
